@@ -47,9 +47,11 @@ type FuncContract struct {
 	Opaque   bool
 	Trusted  bool
 	NoReturn bool
+	NoFrame  bool // the modifies clause is used at call sites but not checked against the body
 	Serves   []string
 	Requires []*Clause
 	Ensures  []*Clause
+	Assumes  []*Clause // postconditions assumed at call sites but not proved of the body (explicitly trusted part)
 	Modifies []string
 	Safe     map[string]bool
 	Loops    map[int]*LoopSpec
@@ -107,7 +109,7 @@ func newContracts() *Contracts {
 	}
 }
 
-var clauseHead = regexp.MustCompile(`^(requires|ensures|invariant|assert|assume|lemma|axiom)(\[[^\]]*\])?\s*(.*)$`)
+var clauseHead = regexp.MustCompile(`^(requires|ensures|assumes|invariant|assert|assume|lemma|axiom)(\[[^\]]*\])?\s*(.*)$`)
 
 // importsOf scans the non-contract Go files of a package dir for import name -> path.
 func importsOf(dir string) map[string]string {
@@ -358,7 +360,7 @@ func (cs *Contracts) loadContractFile(path, pkgPath string, imports map[string]s
 		case cur != nil && head == "serves":
 			cur.Serves = append(cur.Serves, fields[1:]...)
 			lastClause = nil
-		case cur != nil && (head == "pure" || head == "opaque" || head == "trusted" || head == "noreturn"):
+		case cur != nil && (head == "pure" || head == "opaque" || head == "trusted" || head == "noreturn" || head == "noframe"):
 			switch head {
 			case "pure":
 				cur.Pure = true
@@ -368,6 +370,8 @@ func (cs *Contracts) loadContractFile(path, pkgPath string, imports map[string]s
 				cur.Trusted = true
 			case "noreturn":
 				cur.NoReturn = true
+			case "noframe":
+				cur.NoFrame = true
 			}
 			lastClause = nil
 		case cur != nil && head == "safe":
@@ -403,12 +407,15 @@ func (cs *Contracts) loadContractFile(path, pkgPath string, imports map[string]s
 			ls.Invariants = append(ls.Invariants, mk("invariant", m[2], m[3]))
 		case cur != nil && head == "at":
 			// at call N of NAME before|after assert|assume[label] expr      /  at ... set TARGET = expr
-			re := regexp.MustCompile(`^at\s+(call|send|return|entry)\s+(\d+)(?:\s+of\s+(\S+))?\s+(before|after)\s+(assert|assume|set)(\[[^\]]*\])?\s*(.*)$`)
+			re := regexp.MustCompile(`^at\s+(call|send|return|entry)\s+(\d+|all)(?:\s+of\s+(\S+))?\s+(before|after)\s+(assert|assume|set)(\[[^\]]*\])?\s*(.*)$`)
 			m := re.FindStringSubmatch(l)
 			if m == nil {
 				return fmt.Errorf("%s:%d: bad 'at' clause", path, i+1)
 			}
 			n, _ := strconv.Atoi(m[2])
+			if m[2] == "all" {
+				n = -1
+			}
 			g := &GhostAt{Ordinal: n, Callee: m[3], When: m[4], Kind: m[5]}
 			if m[1] != "call" {
 				g.Callee = m[1]
@@ -429,6 +436,8 @@ func (cs *Contracts) loadContractFile(path, pkgPath string, imports map[string]s
 				cur.Requires = append(cur.Requires, c)
 			case "ensures":
 				cur.Ensures = append(cur.Ensures, c)
+			case "assumes":
+				cur.Assumes = append(cur.Assumes, c)
 			default:
 				return fmt.Errorf("%s:%d: clause %q not allowed here", path, i+1, m[1])
 			}
@@ -521,6 +530,9 @@ func (cs *Contracts) parseAll() error {
 			try(c)
 		}
 		for _, c := range fc.Ensures {
+			try(c)
+		}
+		for _, c := range fc.Assumes {
 			try(c)
 		}
 		for _, l := range fc.Loops {
